@@ -8,21 +8,35 @@
 //!   {"q":n,"t":thread,"s":sink,"w":writer-instance,"k":"make","meta":null|{"level","target","name","span"}}
 //!   {"q":n,"t":thread,"s":sink,"w":writer-instance,"k":"write","hex":"..."}      (one entry per `write` call)
 //!   {"q":n,"t":thread,"s":sink,"w":writer-instance,"k":"flush"}
-//! The sinks only implement `write`/`flush` (std's default `write_all` loops over `write`), accept every
-//! byte, and serialise through one mutex -- atomicity of a single `write` is the sink's business.
+//! The sinks only implement `write`/`flush` (std's default `write_all` loops over `write`) and serialise
+//! through one mutex -- atomicity of a single `write` is the sink's business.  By default they accept every
+//! byte; a FAULT PLAN makes individual writer instances misbehave:
+//!   "faults": [ {"<k>": [resp..], ..} per thread ]   k = index of the `make` call on that thread (all
+//!   recording sinks counted together, in call order); resp = {"ok":n} accept min(n,len) bytes (0: Ok(0)),
+//!   "int" Err(Interrupted), "err" Err(Other), "panic".  One resp is consumed per `write`/`flush` call on the
+//!   instance; an exhausted script accepts everything.  Every write entry carries "r": ok|part|zero|int|err|panic.
+//! "sink_kinds": ["rec"|"fn"|"mutex:<chunk>"|"test", ..] (default rec): how the leaf for sink i is built --
+//!   rec   the recording `MakeWriter` (logs make_writer_for(meta));
+//!   fn    a closure `Fn() -> W` (the blanket impl: `make_writer_for` defaults to `make_writer()`, meta = null);
+//!   mutex `std::sync::Mutex<W>` (real impl: the guard is the writer; no make entry); W accepts <chunk> bytes per
+//!         `write` (0 = all) and yields in between: the lock must keep one record's pieces together;
+//!   test  the real `TestWriter` (prints to stdout; what it printed comes back as "stdout" of the case).
+//! Output lines of the harness itself start with "@@C13 ".
 //!
 //! Case schema (see driver/props/c13.py, which generates it):
 //!   format: full|compact|pretty|json        opts: {ansi,target,level,tid,tname,file,line,timer,lie,span_events:[..]}
 //!   nsinks, writer: wexp                     callsites: [{kind,name,target,level,fields,file,line}]
 //!   threads: [[op..]..]                      global: bool (set_global_default; one case per process)
 //! ops: {"op":"enter","cs":k,"vals":[v..],"parent":null|-1|i}   {"op":"exit"}   {"op":"record","f":name,"v":v}
-//!      {"op":"event","cs":k,"vals":[v..],"parent":null|-1|i}    {"op":"direct","text":s}   {"op":"sync"}
+//!      {"op":"event","cs":k,"vals":[v..],"parent":null|-1|i}    {"op":"sync"}
+//!      {"op":"direct","text":s,"method":"write_all"|"write"|"write_vectored"|"write_fmt"|"flush"}  (make_writer() + one call)
 //! values v: {"i":n} {"u":n} {"b":bool} {"s":str} {"f":float} {"d":raw-debug-text} {"none":1}
 //!           {"panic":pre}  -- Debug writes `pre`, then panics (the harness catches it around the event)
 //!           {"err":pre}    -- Debug writes `pre`, then returns fmt::Error
 //!           {"nested":{"cs":k,"vals":[..]},"text":post} -- Debug emits another event, then writes `post`
 use serde_json::{json, Value as J};
 use std::cell::{Cell, RefCell};
+use std::collections::{HashMap, VecDeque};
 use std::fmt;
 use std::io::{self, BufRead, Write};
 use std::panic::{catch_unwind, AssertUnwindSafe};
@@ -41,7 +55,7 @@ use tracing_subscriber::fmt::{
     self as tfmt,
     format::{FmtSpan, Writer as FmtWriter},
     time::FormatTime,
-    writer::{BoxMakeWriter, MakeWriter, MakeWriterExt},
+    writer::{BoxMakeWriter, MakeWriter, MakeWriterExt, TestWriter},
 };
 use tracing_subscriber::{registry::Registry, subscribe::CollectExt, subscribe::Subscribe};
 
@@ -51,6 +65,29 @@ use tracing_subscriber::{registry::Registry, subscribe::CollectExt, subscribe::S
 thread_local! {
     static TIDX: Cell<i64> = Cell::new(-1);
     static CUR: RefCell<Option<Dispatch>> = RefCell::new(None);
+    /// fault plan of this thread: index of the `make` call -> script of the writer instance it returns
+    static PLAN: RefCell<HashMap<usize, Vec<Resp>>> = RefCell::new(HashMap::new());
+    static MKCTR: Cell<usize> = Cell::new(0);
+}
+
+#[derive(Clone, Copy, Debug)]
+enum Resp {
+    Accept(usize),
+    Int,
+    Fail,
+    Panic,
+}
+
+fn resp(j: &J) -> Resp {
+    if let Some(n) = j.get("ok") {
+        return Resp::Accept(n.as_u64().unwrap() as usize);
+    }
+    match j.as_str().unwrap() {
+        "int" => Resp::Int,
+        "err" => Resp::Fail,
+        "panic" => Resp::Panic,
+        x => panic!("bad resp {}", x),
+    }
 }
 
 #[derive(Clone)]
@@ -77,6 +114,7 @@ struct RecWriter {
     sink: usize,
     wid: usize,
     log: Log,
+    script: VecDeque<Resp>,
 }
 
 fn level_code(l: &Level) -> u8 {
@@ -111,8 +149,14 @@ impl RecSink {
             None => J::Null,
             Some(m) => json!({"level": level_code(m.level()), "target": m.target(), "name": m.name(), "span": m.is_span()}),
         };
-        self.log.push(json!({"s": self.id, "w": wid, "k": "make", "meta": m}));
-        RecWriter { sink: self.id, wid, log: self.log.clone() }
+        let mk = MKCTR.with(|c| {
+            let k = c.get();
+            c.set(k + 1);
+            k
+        });
+        let script: VecDeque<Resp> = PLAN.with(|p| p.borrow().get(&mk).cloned()).unwrap_or_default().into();
+        self.log.push(json!({"s": self.id, "w": wid, "k": "make", "meta": m, "mk": mk}));
+        RecWriter { sink: self.id, wid, log: self.log.clone(), script }
     }
 }
 
@@ -134,13 +178,60 @@ fn hex(b: &[u8]) -> String {
     s
 }
 
+fn scripted_err(kind: io::ErrorKind) -> io::Error {
+    io::Error::new(kind, "scripted sink failure")
+}
+
 impl io::Write for RecWriter {
     fn write(&mut self, buf: &[u8]) -> io::Result<usize> {
-        self.log.push(json!({"s": self.sink, "w": self.wid, "k": "write", "hex": hex(buf)}));
-        Ok(buf.len())
+        let (tag, res): (&str, Option<io::Result<usize>>) = match self.script.pop_front() {
+            None => ("ok", Some(Ok(buf.len()))),
+            Some(Resp::Accept(0)) => ("zero", Some(Ok(0))),
+            Some(Resp::Accept(n)) if n >= buf.len() => ("ok", Some(Ok(buf.len()))),
+            Some(Resp::Accept(n)) => ("part", Some(Ok(n))),
+            Some(Resp::Int) => ("int", Some(Err(scripted_err(io::ErrorKind::Interrupted)))),
+            Some(Resp::Fail) => ("err", Some(Err(scripted_err(io::ErrorKind::Other)))),
+            Some(Resp::Panic) => ("panic", None),
+        };
+        self.log.push(json!({"s": self.sink, "w": self.wid, "k": "write", "hex": hex(buf), "r": tag}));
+        match res {
+            Some(r) => r,
+            None => panic!("scripted sink panic"),
+        }
     }
     fn flush(&mut self) -> io::Result<()> {
-        self.log.push(json!({"s": self.sink, "w": self.wid, "k": "flush"}));
+        let (tag, res): (&str, Option<io::Result<()>>) = match self.script.pop_front() {
+            None | Some(Resp::Accept(_)) => ("ok", Some(Ok(()))),
+            Some(Resp::Int) => ("int", Some(Err(scripted_err(io::ErrorKind::Interrupted)))),
+            Some(Resp::Fail) => ("err", Some(Err(scripted_err(io::ErrorKind::Other)))),
+            Some(Resp::Panic) => ("panic", None),
+        };
+        self.log.push(json!({"s": self.sink, "w": self.wid, "k": "flush", "r": tag}));
+        match res {
+            Some(r) => r,
+            None => panic!("scripted sink panic"),
+        }
+    }
+}
+
+/// What sits inside a `Mutex` leaf: accepts `chunk` bytes per `write` (0 = everything) and yields after each
+/// call, so that only the lock (held by the `MutexGuardWriter` for the whole `write_all`) keeps a record together.
+struct ChunkW {
+    sink: usize,
+    wid: usize,
+    log: Log,
+    chunk: usize,
+}
+
+impl io::Write for ChunkW {
+    fn write(&mut self, buf: &[u8]) -> io::Result<usize> {
+        let n = if self.chunk == 0 || self.chunk >= buf.len() { buf.len() } else { self.chunk };
+        self.log.push(json!({"s": self.sink, "w": self.wid, "k": "write", "hex": hex(buf), "r": if n == buf.len() { "ok" } else { "part" }, "mutex": true}));
+        std::thread::yield_now();
+        Ok(n)
+    }
+    fn flush(&mut self) -> io::Result<()> {
+        self.log.push(json!({"s": self.sink, "w": self.wid, "k": "flush", "r": "ok", "mutex": true}));
         Ok(())
     }
 }
@@ -190,22 +281,39 @@ fn eval_pred(p: &Pred, m: &Metadata<'_>) -> bool {
     }
 }
 
-fn build(w: &J, sinks: &[RecSink]) -> BoxMakeWriter {
+fn leaf(i: usize, sinks: &[RecSink], kinds: &[String]) -> BoxMakeWriter {
+    let kind = kinds.get(i).map(|s| s.as_str()).unwrap_or("rec");
+    let sink = sinks[i].clone();
+    if kind == "rec" {
+        BoxMakeWriter::new(sink)
+    } else if kind == "fn" {
+        BoxMakeWriter::new(move || sink.mk(None))
+    } else if kind == "test" {
+        BoxMakeWriter::new(TestWriter::new())
+    } else if let Some(c) = kind.strip_prefix("mutex:") {
+        let wid = sink.wctr.fetch_add(1, Ordering::SeqCst);
+        BoxMakeWriter::new(Mutex::new(ChunkW { sink: i, wid, log: sink.log.clone(), chunk: c.parse().expect("chunk") }))
+    } else {
+        panic!("bad sink kind {}", kind)
+    }
+}
+
+fn build(w: &J, sinks: &[RecSink], kinds: &[String]) -> BoxMakeWriter {
     match w["k"].as_str().unwrap() {
-        "sink" => BoxMakeWriter::new(sinks[w["i"].as_u64().unwrap() as usize].clone()),
-        "box" => BoxMakeWriter::new(build(&w["w"], sinks)),
-        "max" => BoxMakeWriter::new(build(&w["w"], sinks).with_max_level(level_of(w["l"].as_u64().unwrap()))),
-        "min" => BoxMakeWriter::new(build(&w["w"], sinks).with_min_level(level_of(w["l"].as_u64().unwrap()))),
+        "sink" => leaf(w["i"].as_u64().unwrap() as usize, sinks, kinds),
+        "box" => BoxMakeWriter::new(build(&w["w"], sinks, kinds)),
+        "max" => BoxMakeWriter::new(build(&w["w"], sinks, kinds).with_max_level(level_of(w["l"].as_u64().unwrap()))),
+        "min" => BoxMakeWriter::new(build(&w["w"], sinks, kinds).with_min_level(level_of(w["l"].as_u64().unwrap()))),
         "filter" => {
             let p = pred(&w["p"]);
-            BoxMakeWriter::new(build(&w["w"], sinks).with_filter(move |m: &Metadata<'_>| eval_pred(&p, m)))
+            BoxMakeWriter::new(build(&w["w"], sinks, kinds).with_filter(move |m: &Metadata<'_>| eval_pred(&p, m)))
         }
-        "tee" => BoxMakeWriter::new(build(&w["a"], sinks).and(build(&w["b"], sinks))),
+        "tee" => BoxMakeWriter::new(build(&w["a"], sinks, kinds).and(build(&w["b"], sinks, kinds))),
         "orelse" => {
             // the left operand must statically yield an OptionalWriter: one of the three gates
             let a = &w["a"];
-            let b = build(&w["b"], sinks);
-            let inner = build(&a["w"], sinks);
+            let b = build(&w["b"], sinks, kinds);
+            let inner = build(&a["w"], sinks, kinds);
             match a["k"].as_str().unwrap() {
                 "max" => BoxMakeWriter::new(inner.with_max_level(level_of(a["l"].as_u64().unwrap())).or_else(b)),
                 "min" => BoxMakeWriter::new(inner.with_min_level(level_of(a["l"].as_u64().unwrap())).or_else(b)),
@@ -546,8 +654,32 @@ fn run_program(
                 }
             }
             "direct" => {
-                let mut w = direct.make_writer();
-                let _ = w.write_all(op["text"].as_str().unwrap().as_bytes());
+                let text = op["text"].as_str().unwrap();
+                let method = op["method"].as_str().unwrap_or("write_all");
+                let r = catch_unwind(AssertUnwindSafe(|| {
+                    let mut w = direct.make_writer();
+                    match method {
+                        "write_all" => {
+                            let _ = w.write_all(text.as_bytes());
+                        }
+                        "write" => {
+                            let _ = w.write(text.as_bytes());
+                        }
+                        "write_vectored" => {
+                            let _ = w.write_vectored(&[io::IoSlice::new(text.as_bytes())]);
+                        }
+                        "write_fmt" => {
+                            let _ = w.write_fmt(format_args!("{}", text));
+                        }
+                        "flush" => {
+                            let _ = w.flush();
+                        }
+                        x => panic!("bad method {}", x),
+                    }
+                }));
+                if r.is_err() {
+                    caught.lock().unwrap().push(json!([t, k]));
+                }
             }
             "sync" => {
                 barrier.wait();
@@ -588,8 +720,22 @@ fn run_case(case: &J) -> J {
         lie: b("lie"),
         span_events: se,
     };
-    let writer = build(&case["writer"], &sinks);
-    let direct = Arc::new(build(&case["writer"], &sinks));
+    let kinds: Vec<String> = case["sink_kinds"].as_array().map(|a| a.iter().map(|k| k.as_str().unwrap().to_string()).collect()).unwrap_or_default();
+    let writer = build(&case["writer"], &sinks, &kinds);
+    let direct = Arc::new(build(&case["writer"], &sinks, &kinds));
+    let faults: Vec<HashMap<usize, Vec<Resp>>> = case["faults"]
+        .as_array()
+        .map(|a| {
+            a.iter()
+                .map(|th| {
+                    th.as_object()
+                        .map(|o| o.iter().map(|(k, v)| (k.parse().expect("make index"), v.as_array().unwrap().iter().map(resp).collect())).collect())
+                        .unwrap_or_default()
+                })
+                .collect()
+        })
+        .unwrap_or_default();
+    let faults = Arc::new(faults);
     let lay = layer(case["format"].as_str().unwrap(), &opts, writer);
     let dispatch = Dispatch::new(Registry::default().with(lay));
     let callsites: Arc<Vec<&'static Metadata<'static>>> = Arc::new(case["callsites"].as_array().unwrap().iter().map(mk_callsite).collect());
@@ -605,12 +751,15 @@ fn run_case(case: &J) -> J {
     let tids = Arc::new(Mutex::new(vec![String::new(); n]));
     let mut handles = Vec::new();
     for (t, prog) in threads.into_iter().enumerate() {
-        let (dispatch, callsites, direct, barrier, caught, tids) = (dispatch.clone(), callsites.clone(), direct.clone(), barrier.clone(), caught.clone(), tids.clone());
+        let (dispatch, callsites, direct, barrier, caught, tids, faults) =
+            (dispatch.clone(), callsites.clone(), direct.clone(), barrier.clone(), caught.clone(), tids.clone(), faults.clone());
         // fixed-width names: FmtThreadName pads to the longest name seen by the process
         let h = std::thread::Builder::new()
             .name(format!("wk{:02}", t))
             .spawn(move || {
                 TIDX.with(|c| c.set(t as i64));
+                MKCTR.with(|c| c.set(0));
+                PLAN.with(|p| *p.borrow_mut() = faults.get(t).cloned().unwrap_or_default());
                 tids.lock().unwrap()[t] = format!("{:0>2?}", std::thread::current().id());
                 let prog = prog.as_array().unwrap().clone();
                 barrier.wait();
@@ -645,8 +794,13 @@ fn main() {
     } else {
         Box::new(io::BufReader::new(io::stdin()))
     };
-    let stdout = io::stdout();
-    let mut out = io::BufWriter::new(stdout.lock());
+    // `TestWriter` leaves print to stdout through `print!`: never hold the stdout lock; every line of the
+    // harness itself starts with "@@C13 " and is flushed before the next case starts.
+    let emit = |j: J| {
+        let mut so = io::stdout().lock();
+        writeln!(so, "\n@@C13 {}", j).unwrap();
+        so.flush().unwrap();
+    };
     for line in input.lines() {
         let line = line.unwrap();
         if line.trim().is_empty() {
@@ -655,19 +809,18 @@ fn main() {
         let case: J = match serde_json::from_str(&line) {
             Ok(c) => c,
             Err(e) => {
-                writeln!(out, "{}", json!({"id": J::Null, "fatal": format!("bad case json: {}", e)})).unwrap();
+                emit(json!({"id": J::Null, "fatal": format!("bad case json: {}", e)}));
                 continue;
             }
         };
         let id = case["id"].clone();
         let r = catch_unwind(AssertUnwindSafe(|| run_case(&case)));
         match r {
-            Ok(j) => writeln!(out, "{}", j).unwrap(),
+            Ok(j) => emit(j),
             Err(p) => {
                 let msg = p.downcast_ref::<String>().cloned().or_else(|| p.downcast_ref::<&str>().map(|s| s.to_string())).unwrap_or_default();
-                writeln!(out, "{}", json!({"id": id, "fatal": msg})).unwrap()
+                emit(json!({"id": id, "fatal": msg}))
             }
         }
     }
-    out.flush().unwrap();
 }
